@@ -97,6 +97,9 @@ func c27Check(c c27Case, r *ev.Rec) error {
 				sig += " [map value]"
 			}
 		}
+		if strings.Contains(sig, "consider using a leading dot") && strings.Contains(strings.Join(sortedValues(c.Files), "\n"), "service ") {
+			sig += " [service]" // what is left of the shadowing class: the shadowing element is a service
+		}
 		if kerr := c27Report(r, sig, "the stable compiler rejects the workspace (%v), the experimental compiler accepts it (injected defect %q)\n%s", serr, c.Mutation, showFiles(c.Files)); kerr != nil {
 			return kerr
 		}
@@ -370,7 +373,7 @@ var c27Known = []c27KnownClass{
 	{"in a field with implicit presence [FIELD_PRESENCE_UNKNOWN]", "closed-enum-implicit-presence-accepted"},
 	{"in a field with implicit presence [map value]", "closed-enum-implicit-presence-accepted"},
 	{"exp-accepts/default value is not allowed on fields with implicit presence [FIELD_PRESENCE_UNKNOWN]", "default-with-implicit-presence-accepted"},
-	{"which is not defined; consider using a leading dot", "inner-scope-first-component-shadowing-accepted"},
+	{"which is not defined; consider using a leading dot [service]", "service-shadows-first-component-accepted"},
 	{"exp-rejects/:expected N-bit integer type, found", "jstype-on-non-64-bit-rejected"},
 	{"exp-rejects/:expected repeated field, found singular field", "repeated-field-encoding-on-map-rejected"},
 	{"exp-rejects/:unsupported base for floating-point literal", "hex-integer-for-float-option"},
